@@ -94,15 +94,36 @@ pub fn filter_by_git_diff(
         })
         .collect();
 
-    // Filter to only include changed files
+    // Filter to only include changed files. The same holds on this side: a scanned or listed
+    // path that is a symbolic link, or is spelled through a linked directory of the work tree,
+    // is not the file git tracks there, even when it resolves to a changed one.
     let filtered: Vec<_> = files
         .into_iter()
         .filter(|f| {
-            f.canonicalize()
-                .ok()
-                .is_some_and(|canon| changed_canonical.contains(&canon))
+            !spelled_through_symlink(f, workdir_canonical.as_deref())
+                && f.canonicalize()
+                    .ok()
+                    .is_some_and(|canon| changed_canonical.contains(&canon))
         })
         .collect();
 
     Ok(filtered)
+}
+
+/// Whether `path` or one of the directories it is spelled through is a symbolic link that
+/// lives inside the work tree (links above the work tree are how the user got there and do
+/// not change which tracked file is meant).
+fn spelled_through_symlink(path: &Path, workdir_canonical: Option<&Path>) -> bool {
+    let Some(workdir) = workdir_canonical else {
+        return false;
+    };
+    path.ancestors()
+        .filter(|a| !a.as_os_str().is_empty() && a.is_symlink())
+        .any(|a| {
+            let parent = a.parent().filter(|p| !p.as_os_str().is_empty());
+            parent
+                .unwrap_or_else(|| Path::new("."))
+                .canonicalize()
+                .is_ok_and(|dir| dir.starts_with(workdir))
+        })
 }
